@@ -214,6 +214,8 @@ pub struct Sim {
     task_rqv: BTreeMap<TaskId, ResourceRequestVariants>,
     /// (proactive_filling_reserve, proactive_filling_max) of the scheduler
     pub prefill: (u32, u32),
+    /// exhaustive exploration: remaining (worker losses, cancels, extra workers) on this path
+    pub x_budget: (u32, u32, u32),
     /// generator profile: 0 basic, 1 prefill-heavy, 2 multi-node, 3 resources/variants/strict policies,
     /// 4 worker time limits and time requests (incl. variants with different time requests)
     pub profile: u64,
@@ -426,6 +428,7 @@ impl Sim {
             wait_mode: false,
             low_submit: vec![],
             task_rqv: Default::default(),
+            x_budget: (1, 1, 1),
             prefill,
             panicked: None,
             log: vec![format!("profile {profile}")],
@@ -1555,6 +1558,181 @@ impl Sim {
             }
         }
         false
+    }
+}
+
+// ------------------------------------------------------------------------------------------------
+// bounded exhaustive exploration (thorough tier): every sequence of enabled world actions up to a depth, from a
+// few small fixed scenarios, each executed from scratch on the real code (the world cannot be cloned)
+
+#[derive(Clone, Debug)]
+pub enum XAct {
+    Schedule,
+    Deliver(u32, bool),
+    End(u32, TaskId, bool),
+    Lose(u32, bool),
+    Cancel(u32),
+    AddWorker,
+}
+
+impl Sim {
+    /// scenario 0: one 2-cpu worker, closed graph job 0; 1:0; 2 with max_fails 0
+    /// scenario 1: two 1-cpu workers, array job of 3 tasks, proactive filling reserve 0 / max 2
+    /// scenario 2: two workers of one group, one 2-node task and one 1-cpu task
+    pub fn scenario(k: u32) -> Sim {
+        use tako::resources::ResourceDescriptor;
+        let prefill = if k == 1 { (0, 2) } else { (1, 1) };
+        let mut s = Sim::build(0, false, prefill);
+        s.profile = if k == 2 { 2 } else { 0 };
+        let mut add = |s: &mut Sim, cpus: u32, group: &str| {
+            let next = WorkerId::new(s.world.server.worker_counter() + 1);
+            let mut cfg = worker_config(next, cpus, group, None);
+            cfg.resources = ResourceDescriptor::simple_cpus(cpus);
+            s.do_add_worker(cfg);
+        };
+        match k {
+            0 => {
+                add(&mut s, 2, "default");
+                let mk = |id: u32, deps: Vec<u32>| TaskWithDependencies {
+                    id: JobTaskId::new(id),
+                    resource_rq_id: LocalResourceRqId::new(0),
+                    task_desc: task_desc(0, CrashLimit::MaxCrashes(1), None),
+                    task_deps: deps.into_iter().map(JobTaskId::new).collect(),
+                };
+                let desc = JobTaskDescription::Graph { resource_rqs: vec![cpu_rq(1, 0)], tasks: vec![mk(0, vec![]), mk(1, vec![0]), mk(2, vec![])] };
+                s.submit_desc(None, Some(0), desc, "graph 0:;1:0;2:".to_string());
+            }
+            1 => {
+                add(&mut s, 1, "default");
+                add(&mut s, 1, "default");
+                let desc = JobTaskDescription::Array {
+                    ids: IntArray::new(vec![IntRange::new(0, 3, 1)]),
+                    entries: None,
+                    resource_rq: cpu_rq(1, 0),
+                    task_desc: task_desc(0, CrashLimit::default(), None),
+                };
+                s.submit_desc(None, None, desc, "array 0:3:1 -".to_string());
+            }
+            _ => {
+                add(&mut s, 1, "ga");
+                add(&mut s, 1, "ga");
+                let mn = JobTaskDescription::Array { ids: IntArray::from_id(0), entries: None, resource_rq: cpu_rq(0, 2), task_desc: task_desc(1, CrashLimit::MaxCrashes(1), None) };
+                s.submit_desc(None, None, mn, "array 0:1:1 -".to_string());
+                let sn = JobTaskDescription::Array { ids: IntArray::from_id(0), entries: None, resource_rq: cpu_rq(1, 0), task_desc: task_desc(0, CrashLimit::default(), None) };
+                s.submit_desc(None, None, sn, "array 0:1:1 -".to_string());
+            }
+        }
+        s.act_schedule();
+        s
+    }
+
+    pub fn x_enabled(&self) -> Vec<XAct> {
+        let mut v = vec![XAct::Schedule];
+        for (id, w) in &self.world.workers {
+            if !w.to_worker.is_empty() {
+                v.push(XAct::Deliver(*id, true));
+            }
+            if !w.to_server.is_empty() {
+                v.push(XAct::Deliver(*id, false));
+            }
+        }
+        for (w, t) in self.world.running_tasks() {
+            v.push(XAct::End(w, t, true));
+            v.push(XAct::End(w, t, false));
+        }
+        if self.x_budget.0 > 0 {
+            for id in self.world.workers.keys() {
+                v.push(XAct::Lose(*id, true));
+                v.push(XAct::Lose(*id, false));
+            }
+        }
+        if self.x_budget.1 > 0 {
+            for j in &self.known_jobs {
+                v.push(XAct::Cancel(*j));
+            }
+        }
+        if self.x_budget.2 > 0 {
+            v.push(XAct::AddWorker);
+        }
+        v
+    }
+
+    pub fn x_do(&mut self, a: &XAct) {
+        match a {
+            XAct::Schedule => self.act_schedule(),
+            XAct::Deliver(w, to_worker) => {
+                self.do_deliver(*w, *to_worker);
+            }
+            XAct::End(w, t, ok) => {
+                self.do_end_task(*w, *t, if *ok { EndKind::Finished } else { EndKind::Error });
+            }
+            XAct::Lose(w, failure) => {
+                self.x_budget.0 -= 1;
+                self.do_lose_worker(*w, if *failure { LostWorkerReason::ConnectionLost } else { LostWorkerReason::Stopped });
+            }
+            XAct::Cancel(j) => {
+                self.x_budget.1 -= 1;
+                self.client_action(format!("cancel {j}"), FromClientMessage::Cancel(CancelRequest { selector: Self::selector(&[*j]), reason: None }));
+            }
+            XAct::AddWorker => {
+                self.x_budget.2 -= 1;
+                let next = WorkerId::new(self.world.server.worker_counter() + 1);
+                let group = if self.profile == 2 { "ga" } else { "default" };
+                let mut cfg = worker_config(next, 1, group, None);
+                cfg.resources = tako::resources::ResourceDescriptor::simple_cpus(1);
+                self.do_add_worker(cfg);
+            }
+        }
+    }
+}
+
+/// odometer enumeration of all action sequences of length <= depth; `emit` is called with every completed run
+pub fn exhaust(scenario: u32, depth: usize, shard: u64, nshards: u64, mut emit: impl FnMut(&mut Sim, u64)) {
+    let mut choice: Vec<usize> = vec![];
+    let mut leaf: u64 = 0;
+    loop {
+        let mut sim = Sim::scenario(scenario);
+        let mut counts: Vec<usize> = vec![];
+        let mut skipped = false;
+        for d in 0..depth {
+            if sim.panicked.is_some() {
+                break;
+            }
+            let acts = sim.x_enabled();
+            if acts.is_empty() {
+                break;
+            }
+            if d >= choice.len() {
+                choice.push(0);
+            }
+            counts.push(acts.len());
+            sim.x_do(&acts[choice[d]]);
+            if d == 1 && ((choice[0] * 31 + choice[1]) as u64) % nshards != shard {
+                skipped = true;
+                break;
+            }
+        }
+        choice.truncate(counts.len());
+        if !skipped && (depth < 2 || counts.len() >= 2 || shard == 0) {
+            if sim.panicked.is_none() {
+                sim.drain(40);
+            }
+            emit(&mut sim, leaf);
+            leaf += 1;
+        }
+        // next sequence
+        let mut i = counts.len();
+        loop {
+            if i == 0 {
+                return;
+            }
+            i -= 1;
+            if choice[i] + 1 < counts[i] {
+                choice[i] += 1;
+                choice.truncate(i + 1);
+                break;
+            }
+        }
     }
 }
 
